@@ -168,6 +168,22 @@ def case(task):
                                 np.abs(x[mask]).max() for x in mine)))
                             inv = r2['Weyl_invariants']
                             states[name] = (inv['I'], inv['J'], mask)
+                            if tilt:
+                                # electric / magnetic parts seen by a fluid
+                                # moving through the slicing (u != n)
+                                u2 = r2['uup4']
+                                Eu2 = np.einsum('b...,d...,abcd...->ac...',
+                                                u2, u2, C)
+                                Bu2 = 0.5 * np.einsum(
+                                    'b...,f...,abcd...,cdef...->ae...', u2,
+                                    u2, C, eps_uudd)
+                                W2 = float(np.abs(u2).max()) ** 2
+                                put('E_u=C.u.u:moving-fluid', gc.err(
+                                    r2['eweyl_u_down4'], Eu2, S * W2),
+                                    float(np.abs(Eu2).max()))
+                                put('B_u=*C.u.u:moving-fluid', gc.err(
+                                    r2['bweyl_u_down4'], Bu2, S * W2),
+                                    float(np.abs(Bu2).max()))
                             if tet == 'other' and not tilt:
                                 # the options documented as 'also
                                 # attribute' (tetrad, vacuum, Lambda) set
